@@ -89,6 +89,10 @@ def fix_6(r):
 """)
 
 
+def fix_12(r):
+    sub(r, N + 'evpn/mac.py', "        return Labels.unpack_labels(self._packed[label_start : label_start + 3])", "        return Labels.unpack_labels(self._packed[label_start:])")
+
+
 def fix_7(r):
     sub(r, N + 'label.py', """        # _packed includes everything; use _has_addpath as discriminator
         if self._has_addpath:
@@ -116,7 +120,7 @@ def fix_10(r):
 
 
 # fix_10 is NOT proposed: tests/unit/test_mvpn.py::test_sharedjoin_inequality pins the current == (Source AS left out): a known finding instead
-FIXES = {2: fix_2, 3: fix_3, 4: fix_4, 5: fix_5, 6: fix_6, 7: fix_7, 8: fix_8}
+FIXES = {2: fix_2, 3: fix_3, 4: fix_4, 5: fix_5, 6: fix_6, 7: fix_7, 8: fix_8, 12: fix_12}
 here = os.path.dirname(os.path.abspath(__file__))
 for n, f in FIXES.items():
     root = '/tmp/c15one'
